@@ -531,10 +531,12 @@ pub fn scenarios(ctx: &Ctx, rng: &mut Rng) -> Vec<Scenario> {
 }
 
 pub fn run(ctx: &mut Ctx) {
-    let mut rng = ctx.rng("c15.scenarios", 0);
-    let scen = scenarios(ctx, &mut rng);
     let mut case = 0u64;
     let mut table: Vec<Value> = Vec::new();
+    // thorough: several independently generated scenario sets (different archives, entry lists, headers)
+    for round in 0..ctx.n(1, 10) {
+    let mut rng = ctx.rng("c15.scenarios", round);
+    let scen = scenarios(ctx, &mut rng);
     let exhaustive_limit: u64 = ctx.n(3_000, 200_000);
     for sc in &scen {
         // the fault-free run defines N and the reference value / image
@@ -633,7 +635,9 @@ pub fn run(ctx: &mut Ctx) {
             ctx.sample(json!({"scenario": sc.name, "fault_free_operations": n, "faults": format!("k = 0..{n} step {stride}")}));
         }
     }
+    }
     if ctx.shard == 0 {
+        table.truncate(160);
         ctx.extra("scenarios", json!(table));
     }
 }
